@@ -141,8 +141,124 @@ print(json.dumps(res))
 '''
 
 
-def add(ctx, a=None, b=None, replayer=None):
-    """a / b: iterable of clause names to claim from fragment A / B (None = all, () = skip the fragment)"""
+# ---- the whole per-job tail (wave 4): from `icr = inst_coll_resources[...]` through the `for parent_id in parent_ids` loop as ONE
+# fragment.  Fragments A and B are cut out of this region by position; a statement added between or before them (a local that
+# the jobs row then reads, e.g. a separately computed n_pending_parents) is outside both, so its value would be a free name in
+# B.  The tail contract executes every statement of the region: locals flow from where they are computed to the rows they are
+# stored in.  What lies between the two fragments (network / unconfined checks, spec_writer.add, db_spec) is executed as
+# well: `spec`, `spec_writer`, `batch_format_version` are opaque inputs whose method results are havocked (listed as
+# assumptions), and the HTTPBadRequest exits write no row (they leave the fragment by raising).
+TAIL_INPUTS = {
+    'update_id': 'int', 'parent_ids': 'List[int]', 'in_update_parent_ids': 'List[int]', 'absolute_parent_ids': 'List[int]', 'always_run': 'bool', 'cores_mcpu': 'int',
+    'job_group_id': 'int', 'inst_coll_name': 'U', 'job_id': 'int', 'batch_id': 'U', 'n_regions': 'int', 'regions_bits_rep': 'U', 'n_max_attempts': 'U',
+    'spec': 'U', 'user': 'str', 'spec_writer': 'U', 'batch_format_version': 'U',
+    'jobs_args': 'List[%s]' % JOBS_ROW, 'job_parents_args': 'List[Tuple[U, int, int]]', 'jobs_telemetry_args': 'List[Tuple[U, int, U]]',
+}
+
+
+def fragment_tail(which):
+    a, b = fragment_a(None), fragment_b(None)
+    ens = dict(a.ensures)
+    ens.update(dict(b.ensures))
+    # the parent count stored in the row is the number of job_parents rows written for the job, whatever the update: the children
+    # statement of mark_job_complete decrements once per parent row, so a job with a parent that cannot finish before the
+    # commit (a parent of the same, uncommitted update) cannot reach 0 before the commit (C41), and reaches 0 at all (C05/C08)
+    ens['n_pending_parents-covers-every-parent-row-in-every-update'] = "jobs_args[len(jobs_args) - 1][8] == len(job_parents_args) - len(old_job_parents_args)"
+    ens['telemetry-row-appended'] = "len(jobs_telemetry_args) == len(old_jobs_telemetry_args) + 1"
+
+    def setup(eng, st):
+        _setup_a(eng, st)
+        for v in ('jobs_args', 'job_parents_args', 'jobs_telemetry_args'):
+            st.env['old_' + v] = st.env[v]
+
+    unknown = [k for k in (which or ()) if k not in ens]
+    if unknown:
+        raise core.CheckerBug('create_jobs_frag.fragment_tail: unknown clause %r' % unknown)
+    return Contract(
+        path=PATH,
+        qualname='_create_jobs',
+        label='_create_jobs[per-job-tail]',
+        fragment=(r"re:^icr = inst_coll_resources\[", r"re:^for parent_id in "),
+        extra_inputs=dict(TAIL_INPUTS),
+        setup=setup,
+        types={'state': 'str'},
+        opaque_methods=True,
+        # time_ready is stored in a telemetry row next to opaque values: an opaque timestamp (fragment A uses an integer)
+        calls={'time_msecs': lambda eng, st, args, kw, node: z3.Const(pyvc.fresh_name('now'), pyvc.U), 'json.dumps': lambda eng, st, args, kw, node: z3.Const(pyvc.fresh_name('json'), pyvc.U)},
+        consts=dict(a.consts),
+        loops=dict(b.loops),
+        raises={'*': True},  # the 400 exits of the region; nothing is appended on them (they precede the appends)
+        ensures=[(k, v) for k, v in ens.items() if which is None or k in which],
+        canaries=list(a.canaries) + list(b.canaries) + [('never-ready', "state != 'Ready'")],
+    )
+
+
+REPLAY_TAIL = r'''
+import sys, json, os, ast, re, itertools
+src = open(os.path.join(os.environ['VERIF_REPO'], 'batch/batch/front_end/front_end.py')).read()
+tree = ast.parse(src)
+fn = [n for n in ast.walk(tree) if isinstance(n, ast.AsyncFunctionDef) and n.name == '_create_jobs'][0]
+loop = [n for n in fn.body if isinstance(n, ast.For)][0]
+stmts = []; take = False
+for st in loop.body:
+    t = ast.unparse(st)
+    if re.match(r'^icr = inst_coll_resources\[', t): take = True
+    if take:
+        stmts.append(st)
+        if isinstance(st, ast.For) and ast.unparse(st.target) == 'parent_id': break
+assert stmts and isinstance(stmts[-1], ast.For), 'region not found'
+code = compile(ast.Module(body=stmts, type_ignores=[]), 'front_end-per-job-tail', 'exec')
+class J:
+    @staticmethod
+    def dumps(x): return 'json'
+class Any_:
+    def __getattr__(self, n): return lambda *a, **k: {}
+class Web:
+    class HTTPBadRequest(Exception):
+        def __init__(self, **kw): pass
+res = {'confirmed': False, 'tried': 0}
+F = ['n_jobs', 'n_ready_jobs', 'ready_cores_mcpu', 'n_ready_cancellable_jobs', 'ready_cancellable_cores_mcpu']
+for update_id, inup, absol, always_run in itertools.product((1, 2, 3), ([], [1], [1, 2]), ([], [5], [5, 6]), (False, True)):
+    start = 10
+    parent_ids = [start + p - 1 for p in inup] + list(absol)
+    icr = {f: 100 for f in F}
+    env = {'batch_id': 7, 'job_id': 19, 'update_id': update_id, 'job_group_id': 0, 'always_run': always_run, 'cores_mcpu': 250, 'parent_ids': list(parent_ids),
+           'in_update_parent_ids': list(inup), 'absolute_parent_ids': list(absol), 'inst_coll_name': 'standard', 'n_regions': None, 'regions_bits_rep': None, 'n_max_attempts': 20,
+           'spec': {}, 'user': 'u', 'spec_writer': Any_(), 'batch_format_version': Any_(), 'inst_coll_resources': {(0, 'standard'): icr},
+           'jobs_args': [], 'job_parents_args': [], 'jobs_telemetry_args': [], 'json': J, 'web': Web, 'time_msecs': lambda: 1234, 'update_start_job_id': start}
+    exec(code, env)
+    res['tried'] += 1
+    rows = env['job_parents_args']; jr = env['jobs_args'][-1]
+    ready = jr[4] == 'Ready'
+    problems = []
+    if jr[4] not in ('Ready', 'Pending'): problems.append('state %r' % (jr[4],))
+    if ready != (update_id == 1 and not parent_ids): problems.append('job of update %d with %d parents inserted %s' % (update_id, len(parent_ids), jr[4]))
+    if rows != [(7, 19, p) for p in parent_ids]: problems.append('job_parents rows %r for parents %r' % (rows, parent_ids))
+    if jr[8] != len(parent_ids): problems.append('n_pending_parents %r for %d parents (update %d: %d in-update, %d earlier)' % (jr[8], len(parent_ids), update_id, len(inup), len(absol)))
+    want = {'n_jobs': 1, 'n_ready_jobs': int(ready), 'ready_cores_mcpu': 250 * ready, 'n_ready_cancellable_jobs': int(ready and not always_run), 'ready_cancellable_cores_mcpu': 250 * (ready and not always_run)}
+    for f in F:
+        if icr[f] - 100 != want[f]: problems.append('staged %s moved by %d, expected %d' % (f, icr[f] - 100, want[f]))
+    if problems:
+        res = {'confirmed': True, 'what': '_create_jobs per-job tail (real statements): ' + '; '.join(problems), 'input': {'update_id': update_id, 'in_update_parent_ids': inup, 'absolute_parent_ids': absol, 'always_run': always_run}, 'problems': problems}
+        break
+print(json.dumps(res))
+'''
+
+
+def replay_tail():
+    """the real statements of the region, executed under /venv/bin/python on a grid of (update, in-update parents, earlier parents,
+    always_run): bounded enumeration, used only to attach a concrete failing input to a failed obligation"""
+    return core.run_native(REPLAY_TAIL, {})
+
+
+def add(ctx, a=None, b=None, replayer=None, tail=()):
+    """a / b: iterable of clause names to claim from fragment A / B (None = all, () = skip the fragment); tail: clause names to
+    claim from the whole-region contract (default: not run)"""
+    if tail is None or len(tail) > 0:
+        eng = pyvc.Engine(ctx, fragment_tail(tail))
+        _subscript_icr(eng)
+        eng.replayer = replayer or (lambda model, obl: replay_tail())
+        eng.run()
     if a is None or len(a) > 0:
         eng = pyvc.Engine(ctx, fragment_a(a))
         _subscript_icr(eng)
